@@ -193,6 +193,16 @@ UNITS = {
                                                 "C18_seed_and_verbose_irrelevant_source", "C18_bad_seed_source"],
                      "ShuffleMTGenProofs.v": ["C18_numpy_table_source", "C18_reproducible_source"]},
     },
+    "monitor": {
+        "float_axioms": True,
+        "functions": translate_minipy.MONITOR_FUNCS,
+        "generate": lambda repo, d: translate_minipy.generate_monitor(repo, os.path.join(d, "MonitorGen.v")),
+        "refuse": translate_minipy.Refuse,
+        "generated": "MonitorGen.v",
+        "stages": [["MonitorRepr.v"], ["MonitorGenProofs.v"]],
+        "deps": ["Py.v", "Thresholds.v", "MiniPyE.v", "MiniPyEEnc.v", "Proofs/MiniPyELemmas.v", "Proofs/CapacityFloatProofs.v"],
+        "theorems": {"MonitorGenProofs.v": ["monitor_returns", "monitor_zero_total_raises"]},
+    },
     "biofilter": {
         "functions": translate_minipy.BIOFILTER_FUNCS,
         "generate": lambda repo, d: translate_minipy.generate_biofilter(repo, os.path.join(d, "BiofilterGen.v")),
@@ -335,11 +345,12 @@ def run_unit(name, repo, use_cache=True, keep=None):
                     out["failed_file"] = f
                     return out
         out.update(proved=True, closed=closed, seconds=round(time.time() - t0, 1))
-        if name in ("operation", "biofilter", "coder", "graph", "coding", "repair", "score", "matrix", "capacity", "shuffle"):
+        if name in ("operation", "biofilter", "coder", "graph", "coding", "repair", "score", "matrix", "capacity", "shuffle", "monitor"):
             sem = {"operation": semantics_check, "biofilter": semantics_check_filter, "coder": semantics_check_coder,
                    "graph": semantics_check_graph, "coding": semantics_check_coding, "repair": semantics_check_repair,
                    "score": semantics_check_score, "matrix": semantics_check_matrix,
-                   "capacity": semantics_check_capacity, "shuffle": semantics_check_shuffle}[name](
+                   "capacity": semantics_check_capacity, "shuffle": semantics_check_shuffle,
+                   "monitor": semantics_check_monitor}[name](
                 work, repo, int(os.environ.get("VERIF_SEED", "0") or 0))
             out["minipy_semantics_vs_cpython"] = sem
             if sem.get("error") or sem.get("disagreements") or not sem.get("compared"):
@@ -1323,6 +1334,99 @@ def semantics_check_shuffle(work, repo, seed=0, n=60):
         if g != w and len(res["disagreements"]) < 5:
             res["disagreements"].append({"function": "create_random_shuffles", "args": {k: v for k, v in c.items() if k != "perms"},
                                          "minipy": g[:40], "cpython": w[:40]})
+    return res
+
+
+def semantics_check_monitor(work, repo, seed=0, n=140):
+    """Monitor.__call__: MiniPyE interpreter (vm_compute) against CPython, INCLUDING the printed text; datetime is replaced on the
+    CPython side by a stand-in whose elapsed time is the float handed to the interpreter's external "__elapsed__" """
+    import random
+    rng = random.Random(1000003 * seed + 239)
+    cases = []
+    elapsed = [-0.0, -1.5, -61.25, -3600.0, 0.0, 0.5, 1.0, 59.0, 59.99999, 60.0, 61.5, 3599.999, 3600.0, 3725.5, 86400.0, 360000.25, 1e6, 123456.789, 1e-7, 35999999.0]
+    extras = [None, None, {"round": 3}, {"largest eigenvalue": "1.25000", "error": "0.50000"}, {"capacity": "0.00000"}, {}, {"valid": 17}]
+    for i in range(n):
+        total = rng.choice([1, 2, 3, 7, 10, 16, 20, 21, 99, 100, 101, 1000, 4 ** 8, 10 ** 6, 2 ** 40, rng.randrange(1, 10 ** 9)])
+        cur = rng.choice([1, total, max(1, total // 2), max(1, total - 1), rng.randrange(1, total + 1), rng.randrange(1, total + 1)])
+        if i % 11 == 0:
+            cur = rng.choice([0, -1, total + 1, 2 * total, -total])
+        if i % 17 == 0:
+            total = rng.choice([0, 0, -3])
+        cases.append({"cur": cur, "total": total, "extra": rng.choice(extras), "elapsed": rng.choice(elapsed + [rng.random() * 10 ** rng.randint(0, 7)]),
+                      "fresh": rng.random() < 0.5})
+    lines = ["From Coq Require Import PrimFloat.", "From DSW Require Import MiniPyE MiniPyEEnc.", "From DSWGen Require Import MonitorGen.",
+             "Open Scope Z_scope.",
+             "Definition ext (e : float) (f : string) (args : list val) : res val :=",
+             '  if String.eqb f "__now__" then Ret (VFloat 0%float)',
+             '  else if String.eqb f "__elapsed__" then match args with [VFloat _] => Ret (VFloat e) | _ => Stuck end else Stuck.']
+    for c in cases:
+        ex = "VNone" if c["extra"] is None else "(VDict [%s])" % "; ".join(
+            "((VStr %s), %s)" % (translate_minipy.codepoints(k), ("(VInt (%d))" % v) if isinstance(v, int) else "(VStr %s)" % translate_minipy.codepoints(v))
+            for k, v in c["extra"].items())
+        lines.append('Eval vm_compute in enc_res (run_fun (ext (%s)%%float) 10 monitor_call_def [VInt (%d); VInt (%d); %s; %s; VList []]).'
+                     % (float(c["elapsed"]).hex(), c["cur"], c["total"], ex, "VNone" if c["fresh"] else "(VFloat 0%float)"))
+    open(os.path.join(work, "SemCasesMonitor.v"), "w").write("\n".join(lines) + "\n")
+    rc, log = _compile(work, "SemCasesMonitor.v")
+    if rc != 0:
+        return {"cases": len(cases), "compared": 0, "error": log[-600:]}
+    got = [[int(x) for x in re.findall(r"-?\d+", blk.split(": list Z")[0])] for blk in log.split("= ")[1:]]
+    if len(got) != len(cases):
+        return {"cases": len(cases), "compared": 0, "error": "parsed %d answers for %d cases" % (len(got), len(cases))}
+    prog = ("import sys, json\nsys.path.insert(0, %r)\nimport dsw\nimport dsw.operation as O\n"
+            "EX = {ValueError: 1, IndexError: 2, TypeError: 3, OverflowError: 4, KeyError: 5}\n"
+            "class Delta:\n"
+            "    def __init__(self, e): self.e = e\n"
+            "    def total_seconds(self): return self.e\n"
+            "class T:\n"
+            "    def __sub__(self, other):\n"
+            "        assert isinstance(other, T)\n"
+            "        return Delta(Clock.elapsed)\n"
+            "class Clock:\n"
+            "    elapsed = 0.0\n"
+            "    @staticmethod\n"
+            "    def now(): return T()\n"
+            "O.datetime = Clock\n"
+            "class Rec:\n"
+            "    def __init__(self): self.w = []\n"
+            "    def write(self, x):\n"
+            "        if x: self.w.append(x)\n"
+            "    def flush(self): pass\n"
+            "out = []\n"
+            "for c in json.load(sys.stdin):\n"
+            "    Clock.elapsed = c['elapsed']\n"
+            "    m = dsw.Monitor()\n"
+            "    if not c['fresh']: m.last_time = T()\n"
+            "    rec, old = Rec(), sys.stdout\n"
+            "    sys.stdout = rec\n"
+            "    try:\n"
+            "        r = m(c['cur'], c['total']) if c['extra'] is None else m(c['cur'], c['total'], extra=c['extra'])\n"
+            "        sys.stdout = old\n"
+            "        enc = [0, 3, 3, 4 if r is None else 99, 2, len(rec.w)]\n"
+            "        for x in rec.w: enc += [1, len(x)] + [ord(ch) for ch in x]\n"
+            "        enc += [4] if m.last_time is None else [11, 0, 0, 0]\n"
+            "        out.append(enc)\n"
+            "    except Exception as e:\n"
+            "        sys.stdout = old\n"
+            "        out.append([1, EX.get(type(e), 6)])\n"
+            "print(json.dumps({'out': out}))\n" % (repo,))
+    p = subprocess.run(["/venv/bin/python", "-c", prog], input=json.dumps(cases), stdout=subprocess.PIPE, stderr=subprocess.PIPE,
+                       universal_newlines=True, env=dict(os.environ, PYTHONHASHSEED="0"))
+    if p.returncode != 0:
+        return {"cases": len(cases), "compared": 0, "error": p.stderr[-600:]}
+    want = json.loads(p.stdout)["out"]
+    res = {"cases": len(cases), "compared": 0, "stuck": 0, "fuel": 0, "disagreements": [], "raised": 0,
+           "externals": "datetime.now() := a token, elapsed seconds := the given float on both sides; the printed text is compared"}
+    for c, g, w in zip(cases, got, want):
+        if g[:1] == [3]:
+            res["stuck"] += 1
+            continue
+        if g[:1] == [2]:
+            res["fuel"] += 1
+            continue
+        res["compared"] += 1
+        res["raised"] += int(w[:1] == [1])
+        if g != w and len(res["disagreements"]) < 5:
+            res["disagreements"].append({"function": "Monitor.__call__", "args": c, "minipy": g[:60], "cpython": w[:60]})
     return res
 
 
